@@ -19,6 +19,9 @@ func init() {
 }
 
 func c18(c *q.Ctx) {
+	if cb := c.Fn("bcs/ledger/xledger/ledger::(*Ledger).ConfirmBlock"); cb != nil {
+		confirmedRowRemap(c, cb)
+	}
 	const st = "bcs/ledger/xledger/state::"
 	// the snapshot walk tells a pending writer from a confirmed one by the Blockid of the transaction record it finds,
 	// and it looks in the pool table first: a posted transaction must not bring a Blockid along (the field is covered
